@@ -59,7 +59,7 @@ fn main() {
         "c09" => extra = drv_flow::c09(&o, &mut t),
         "c10" => extra = drv_flow::c10(&o, &mut t),
         "c11" => extra = drv_flow::c11(&o, &mut t),
-        "c13" | "c14" => extra = drv_redir::c13_14(&o, &mut t),
+        "c13" | "c14" => extra = drv_redir::c13_14(&o, &mut t, drv == "c13"),
         "c15" => extra = drv_redir::c15(&o, &mut t),
         "c12" => extra = drv_hostile::c12(&o, &mut t),
         "c01" => extra = drv_c01::c01(&o, &mut t),
